@@ -1,4 +1,5 @@
 import SpecVerif.Model.C19
+import SpecVerif.Model.C19Hier
 /-!
 Line-protocol driver for the C19 correspondence: evaluates the definitions of
 `SpecVerif.C19` that the theorems of `Props/C19.lean` are about.
@@ -9,6 +10,12 @@ Input, one case per line:
   eager D ... N .. ..      (the sequential eager result of the same body)
 Output of `run`:  <tid>:<label>* ;; T<i>=<pc>/<obs|-> k=[<sub|orig|synthesized|parent>:<args>,..] ... ;; <class> ;; boots=<n> lock=<_|tid>
 Output of `eager`: <class core>
+  hier <class> / <class> / ... | <k>*        (a chain of decorated classes, root first; first uses of class k in order)
+  heager <class> / <class> / ...             (the same chain with bootstrap=True on every class)
+    <class> = A <n> (<name> <ty>)^n  D <m> (<name> <A|F|P> <default|_> <factory> <repr> <compare>)^m  T <j> (<name> <ty>)^j  S <_ | s <name>^s>
+    (A: body annotations, D: class attributes, T: self.attrs of the decorator (attrs= with ty 0, then attrs_typed=), S: attrs_skip)
+Output of `hier`: the hierarchy after each first use, ` ;; `-separated; of `heager`: the eager hierarchy.
+  hierarchy = <cls> | <cls> ...;  <cls> = m=<[name:ty:d:f:r:c:owner,..]|_> a=[name:ty,..] d=[name=<D|v|_>,..] h=[name,..]
 Obs / class syntax: m=<[d:f:r:c,..]|_> f=<1|0> d=[<D|v|_>,..] g=[ids] n=<wrapper|orig|synthesized|inherited>
 -/
 open SpecVerif.C19
@@ -91,7 +98,7 @@ def runLabels (b : Body) (trig : Nat → Trigger) : Config → List Nat → List
     | none => runLabels b trig c ts (acc ++ [s!"{t}:blocked"])
     | some (c', l) => runLabels b trig c' ts (acc ++ [s!"{t}:{showLabel l}"])
 
-def handle (line : String) : String :=
+def handle1 (line : String) : String :=
   match splitBar (toks line) with
   | ["run" :: body, trigs, sched] =>
     match parseBody body with
@@ -112,6 +119,91 @@ def handle (line : String) : String :=
     | none => "bad-body"
     | some b => showObs ⟨(eagerCore b).mdata, (eagerCore b).fields, (eagerCore b).decls, (eagerCore b).methods, finalNew b⟩
   | _ => "bad-op"
+
+/-! ### hierarchies (`Model/C19Hier.lean`) -/
+open SpecVerif.C19.Hier in
+def splitSlash (ts : List String) : List (List String) :=
+  ts.foldr (fun x acc => if x == "/" then [] :: acc else match acc with
+    | [] => [[x]] | a :: as => (x :: a) :: as) [[]]
+
+partial def parsePairs : Nat → List String → Option (List (Nat × Nat) × List String)
+  | 0, r => some ([], r)
+  | n + 1, a :: b :: r => do
+    let (ps, r) ← parsePairs n r
+    pure ((← a.toNat?, ← b.toNat?) :: ps, r)
+  | _, _ => none
+
+partial def parseHDict : Nat → List String → Option (List (Nat × Decl) × List String)
+  | 0, r => some ([], r)
+  | n + 1, nm :: k :: d :: f :: rp :: cp :: r => do
+    let info : AttrInfo := ⟨pOptNat d, pBool f, pBool rp, pBool cp⟩
+    let decl := if k == "A" then Decl.attr info else if k == "F" then Decl.field info else Decl.plain (pOptNat d)
+    let (ds, r) ← parseHDict n r
+    pure ((← nm.toNat?, decl) :: ds, r)
+  | _, _ => none
+
+open SpecVerif.C19.Hier in
+def parseHBody (ts : List String) : Option HBody :=
+  match ts with
+  | "A" :: n :: r => do
+    let (an, r) ← parsePairs (← n.toNat?) r
+    match r with
+    | "D" :: m :: r =>
+      let (dd, r) ← parseHDict (← m.toNat?) r
+      match r with
+      | "T" :: j :: r =>
+        let (tt, r) ← parsePairs (← j.toNat?) r
+        match r with
+        | ["S", "_"] => some ⟨an, dd, tt, none⟩
+        | "S" :: s :: r => some ⟨an, dd, tt, some ((r.take (s.toNat?.getD 0)).map (fun x => x.toNat?.getD 0))⟩
+        | _ => none
+      | _ => none
+    | _ => none
+  | _ => none
+
+def parseChain (ts : List String) : Option (List SpecVerif.C19.Hier.HBody) :=
+  (splitSlash ts).mapM parseHBody
+
+open SpecVerif.C19.Hier in
+def showSpec (s : Spec) : String := s!"{s.name}:{s.ty}:{showInfo s.info}:{s.owner}"
+
+open SpecVerif.C19.Hier in
+def showHCls (c : HCls) : String :=
+  let m := match c.mdata with
+    | none => "_"
+    | some l => "[" ++ ",".intercalate (l.map showSpec) ++ "]"
+  let a := ",".intercalate (c.annots.map fun x => s!"{x.1}:{x.2}")
+  let d := ",".intercalate ((List.range 8).filterMap fun n => (c.dict.lookup n).map fun v => s!"{n}={showDecl v}")
+  s!"m={m} a=[{a}] d=[{d}] h=[{",".intercalate (c.helpers.map toString)}]"
+
+def showHier (st : List SpecVerif.C19.Hier.HCls) : String := " | ".intercalate (st.map showHCls)
+
+open SpecVerif.C19.Hier in
+def runHier (chain : List HBody) : List Nat → List HCls → List String → List String
+  | [], _, acc => acc
+  | k :: ks, st, acc => let st' := boot chain k st; runHier chain ks st' (acc ++ [showHier st'])
+
+def handleHier (line : String) : Option String :=
+  match splitBar (toks line) with
+  | ["hier" :: chain, trigs] =>
+    some (match parseChain chain with
+    | none => "bad-chain"
+    | some ch =>
+      let ks := trigs.map (fun x => x.toNat?.getD 0)
+      let outs := runHier ch ks (SpecVerif.C19.Hier.initSt ch) []
+      let same := SpecVerif.C19.Hier.runTrigs ch ks (SpecVerif.C19.Hier.initSt ch)
+        == ks.foldl (fun st k => SpecVerif.C19.Hier.boot ch k st) (SpecVerif.C19.Hier.initSt ch)
+      (if same then "" else "!MISMATCH ") ++ " ;; ".intercalate outs)
+  | ["heager" :: chain] =>
+    some (match parseChain chain with
+    | none => "bad-chain"
+    | some ch => showHier (SpecVerif.C19.Hier.eager ch))
+  | _ => none
+
+def handle (line : String) : String :=
+  match handleHier line with
+  | some s => s
+  | none => handle1 line
 
 partial def loop (h : IO.FS.Stream) (out : IO.FS.Stream) : IO Unit := do
   let line ← h.getLine
